@@ -336,7 +336,11 @@ func (r *cdpRunner) step() {
 	case x < 926 && r.cfg.reserve && r.cfg.liquidateMsg:
 		r.externalLiqOp()
 	case x >= 926 && x < 932 && r.cfg.govChanges:
-		r.govProductChange()
+		if r.cfg.lockers && r.rnd.Intn(3) == 0 {
+			r.govSavingRateChange()
+		} else {
+			r.govProductChange()
+		}
 	default:
 		gap := time.Duration(1+r.rnd.Intn(20)) * time.Second
 		switch r.rnd.Intn(12) {
@@ -483,6 +487,30 @@ func (r *cdpRunner) govProductChange() {
 			r.rec.Count("gov_product_changes", 1)
 		} else {
 			r.rec.Count("gov_product_changes_rejected", 1)
+		}
+	})
+}
+
+// govSavingRateChange: a governance contract message changes the locker saving rate of one (app, asset); the collector
+// settles every locker of it at the old rate first.
+func (r *cdpRunner) govSavingRateChange() {
+	u := r.u
+	c := u.c
+	app := u.cdpApps[r.rnd.Intn(len(u.cdpApps))]
+	as := u.byDenom[[]string{"ucmst", "ucmtw"}[r.rnd.Intn(2)]]
+	cl, found := c.App.CollectorKeeper.GetCollectorLookupTable(c.Ctx(), app, as.ID)
+	if !found {
+		return
+	}
+	nr := dec([]string{"0", "0.05", "0.1", "0.3", "0.5"}[r.rnd.Intn(5)])
+	if nr.Equal(cl.LockerSavingRate) {
+		return
+	}
+	r.env("gov-saving-rate", fmt.Sprintf("app=%d asset=%d %s -> %s", app, as.ID, cl.LockerSavingRate, nr), func() {
+		err := c.Gov(bindings.ComdexMessages{MsgUpdateCollectorLookupTable: &bindings.MsgUpdateCollectorLookupTable{AppID: app, AssetID: as.ID, DebtThreshold: cl.DebtThreshold, SurplusThreshold: cl.SurplusThreshold,
+			LotSize: cl.LotSize, DebtLotSize: cl.DebtLotSize, BidFactor: cl.BidFactor, LSR: nr}})
+		if err == nil {
+			r.rec.Count("gov_saving_rate_changes", 1)
 		}
 	})
 }
